@@ -523,7 +523,7 @@ def run(repo, rep):
 
 def controls(repo):
     out = []
-    out.append(('beta-sign', text_variant(repo, 'geodepy/convert.py', '              - 152616960)', '              + 152616960)'), 'beta_coeff::b4'))
+    out.append(('beta-sign', text_variant(repo, 'geodepy/convert.py', '            - 7257600))', '            + 7257600))'), 'beta_coeff::b4'))
     src = repo.sources['geodepy/convert.py']
 
     def drop_fn(fn):
@@ -535,5 +535,5 @@ def controls(repo):
             return n.left
         substitute(fn, pred, make, limit=1, expect=1)
     out.append(('south-false-northing', repo.variant({'geodepy/convert.py': replace_in_function(src, 'grid2geo', drop_fn)}), 'grid2geo::xi1'))
-    out.append(('standalone-b6', text_variant(repo, 'Standalone/mga2gda.py', '           - 39205760)', '           + 39205760)'), 'mga2gda.py::<module>::b6'))
+    out.append(('standalone-b6', text_variant(repo, 'Standalone/mga2gda.py', '        - 22619520))', '        + 22619520))'), 'mga2gda.py::<module>::b6'))
     return out
